@@ -233,36 +233,71 @@ def _run_table(case):
     return dict(stats=st, findings=f, samples=samples, nontrivial=cnt['n'])
 
 
-def _residual_check(which):
-    """PSFPhotometry model / residual images."""
+def _residual_check(which, container='ndarray', include=None, cls='psf',
+                    bkgsrc='column'):
+    """PSFPhotometry / IterativePSFPhotometry model and residual images:
+    residual == data - model image (same include_localbkg flag) for every
+    accepted container, model image == make_model_image of the fit results."""
+    import astropy.units as u
+    from astropy.nddata import NDData
     from astropy.table import QTable
+    from photutils.background import LocalBackground, MedianBackground
     from photutils.datasets import make_model_image
-    from photutils.psf import CircularGaussianPRF, PSFPhotometry
+    from photutils.detection import DAOStarFinder
+    from photutils.psf import (CircularGaussianPRF, IterativePSFPhotometry,
+                               PSFPhotometry)
     model = CircularGaussianPRF(fwhm=2.4)
     src = QTable(dict(x_0=[6.0, 17.3, 24.0], y_0=[5.0, 12.2, 1.0],
                       flux=[100., 60., 30.]))
     data = make_model_image((20, 26), model, src, model_shape=(9, 9)) + 0.3
-    ph = PSFPhotometry(model, (5, 5), aperture_radius=3)
+    data = data + 0.05 * np.arange(26)[None, :]       # non-constant sky
+    if include is None:
+        include = (which == 'bkg')
+    kw = {}
+    if which == 'bkg' and bkgsrc == 'estimator':
+        kw['localbkg_estimator'] = LocalBackground(5, 8, MedianBackground())
+    if cls == 'psf':
+        ph = PSFPhotometry(model, (5, 5), aperture_radius=3, **kw)
+    else:
+        # (the finder runs on the residual image: its threshold carries the
+        # unit of the data)
+        thr = 2.0 * u.Jy if container == 'quantity' else 2.0
+        ph = IterativePSFPhotometry(model, (5, 5), DAOStarFinder(thr, 2.4),
+                                    aperture_radius=3, maxiters=2, **kw)
     init = QTable(dict(x=[6.1, 17.2, 24.1], y=[5.0, 12.3, 1.1]))
-    if which == 'bkg':
-        init['local_bkg'] = [0.3, 0.3, 0.3]
+    if which == 'bkg' and bkgsrc == 'column':
+        init['local_bkg'] = [0.4, 1.1, 1.6]
+    unit = None
+    arg = data
+    if container == 'quantity':
+        unit = u.Jy
+        arg = data * unit
+        if 'local_bkg' in init.colnames:
+            init['local_bkg'] = init['local_bkg'] * unit
+    elif container == 'nddata':
+        arg = NDData(data)
     with warnings.catch_warnings():
         warnings.simplefilter('ignore')
-        tbl = ph(data, init_params=init)
+        tbl = ph(arg, init_params=init)
         mi = ph.make_model_image(data.shape, psf_shape=(9, 9),
-                                 include_localbkg=(which == 'bkg'))
-        ri = ph.make_residual_image(data, psf_shape=(9, 9),
-                                    include_localbkg=(which == 'bkg'))
-    if not np.array_equal(ri, data - mi):
-        return 'residual image is not exactly data - model image'
-    t = QTable(dict(x_0=tbl['x_fit'], y_0=tbl['y_fit'],
-                    flux=tbl['flux_fit']))
-    if which == 'bkg':
-        t['local_bkg'] = tbl['local_bkg']
-    exp = make_model_image(data.shape, model, t, model_shape=(9, 9))
-    if not np.allclose(mi, exp, rtol=0, atol=1e-10):
-        return 'PSFPhotometry.make_model_image differs from make_model_image' \
-               ' of the fit results'
+                                 include_localbkg=include)
+        ri = ph.make_residual_image(arg, psf_shape=(9, 9),
+                                    include_localbkg=include)
+    if isinstance(ri, NDData):
+        ri = ri.data
+    val = lambda x: np.asarray(getattr(x, 'value', x), float)  # noqa
+    if not np.allclose(val(ri), data - val(mi), rtol=0, atol=1e-12):
+        return (f'residual image is not data - model image (max diff '
+                f'{np.max(np.abs(val(ri) - (data - val(mi)))):.3g})')
+    if cls == 'psf':
+        t = QTable(dict(x_0=val(tbl['x_fit']), y_0=val(tbl['y_fit']),
+                        flux=val(tbl['flux_fit'])))
+        if include:
+            t['local_bkg'] = val(tbl['local_bkg'])
+        exp = make_model_image(data.shape, model, t, model_shape=(9, 9))
+        if not np.allclose(val(mi), exp, rtol=0, atol=1e-10):
+            return ('PSFPhotometry.make_model_image differs from '
+                    'make_model_image of the fit results')
     return None
 
 
@@ -271,15 +306,25 @@ def _run_residual(case):
 
     def fn(ctx):
         which = ctx.choice('which', ['plain', 'bkg'])
+        container = ctx.choice('container', ['ndarray', 'quantity', 'nddata'])
+        include = ctx.flag('include')
+        cls = ctx.choice('cls', ['psf', 'iter'])
+        bkgsrc = ctx.choice('bkgsrc', ['column', 'estimator'])
         ctx.stats.obligations += 1
         cnt['n'] += 1
-        msg = _residual_check(which)
+        try:
+            msg = _residual_check(which, container, include, cls, bkgsrc)
+        except Exception as e:  # noqa
+            msg = f'raised {e!r}'
         if msg is None:
             ctx.stats.unsat += 1
         else:
             ctx.stats.sat += 1
-            ctx.find('residual:' + which, msg, ctx.witness(),
-                     params=dict(kind='residual', which=which))
+            ctx.find(f'residual:{which}:{container}:{cls}', msg,
+                     ctx.witness(),
+                     params=dict(kind='residual', which=which,
+                                 container=container, include=include,
+                                 cls=cls, bkgsrc=bkgsrc))
 
     _, st, f = explore(fn)
     return dict(stats=st, findings=f, samples=[dict(case='residual')],
@@ -317,7 +362,12 @@ def cases(tier, seed):
 def replay(f):
     p = f['params']
     if p['kind'] == 'residual':
-        msg = _residual_check(p['which'])
+        try:
+            msg = _residual_check(p['which'], p.get('container', 'ndarray'),
+                                  p.get('include'), p.get('cls', 'psf'),
+                                  p.get('bkgsrc', 'column'))
+        except Exception as e:  # noqa
+            msg = f'raised {e!r}'
         return msg is not None, str(msg)
     per_row = p['per_row']
     if per_row:
